@@ -7,6 +7,7 @@ wt=/root/scratch/confirm_$name
 log=/root/scratch/confirm_$name.log
 git -C /repo worktree remove --force $wt >/dev/null 2>&1
 git -C /repo worktree add --detach $wt HEAD >/dev/null 2>&1 || exit 2
+mkdir -p $wt/.rt_tmp
 run() { (cd $wt && PYTHONPATH=$wt NUMBA_CACHE_DIR=$wt/.nb PYTHONHASHSEED=0 timeout 1800 /venv/bin/python "$@"); }
 {
 echo "== apply"; git -C $wt apply $src/patch.diff; a=$?; echo "apply=$a"
